@@ -502,6 +502,7 @@ func (obj *Package) Export(name string) {
 		} else {
 			vv := newUnboundVar(name)
 			vv.Export = true
+			vv.Pkg = obj
 			obj.vars[name] = vv
 		}
 	}
